@@ -30,7 +30,11 @@ META = {
 }
 
 THEOREMS = [
+    "C08_recompress",
+    "C08_grow_shrink",
     "C08_consume_inv",
+    "C08_wellformed",
+    "C08_format_sound",
     "C08_jump_only_none",
     "C08_repeat_matches_first",
     "C08_repeat_front_matches_all",
